@@ -46,3 +46,13 @@ func zzH_C07_window_contradiction(t *zzT) {
 	t.ObserveBool("got", got)
 	t.Reach("end")
 }
+
+// C01 premise: finality safety assumes that honest validators never sign contradicting headers and
+// that a contradicting header inside the vote window is refused by every node
+// (verifyBlock -> IsHeaderContradictingChain -> BFTVotes.contradicting). Registered under C01 as well:
+// the window check is the enforcement point of that premise (same obligation as C07.b).
+//
+//zz:opt loop=16
+//zz:quick L=3
+//zz:thorough L=5
+func zzH_C01_window_contradiction(t *zzT) { zzH_C07_window_contradiction(t) }
